@@ -29,7 +29,7 @@ import (
 	"github.com/tigerwill90/fox"
 )
 
-const rule = "cases = requests of 26 shapes (direct, two parameters, catch-all, hostname, ignored trailing slash, redirect, 404, 405, auto OPTIONS, manual Lookup with own writer, Lookup with nil writer, CloneWith, infix catch-alls with and without following parameters, 405/OPTIONS whose probing backtracks between hostname labels) " +
+const rule = "cases = requests of 27 shapes (direct, two parameters, catch-all, hostname, ignored trailing slash, redirect, 404, 405, auto OPTIONS, manual Lookup with own writer, Lookup with nil writer, CloneWith, infix catch-alls with and without following parameters, 405/OPTIONS whose probing backtracks between hostname labels) " +
 	"each with a unique token in every observable field, in random order; every handler/middleware invocation compares all Context getters with its own request; clones re-read later; " +
 	"distinct by token; non-trivial when the previous user of the pooled context was a request of a different shape (sequential mode) or always (concurrent mode)"
 
@@ -203,6 +203,16 @@ func (w *world) handler(kind string) fox.HandlerFunc {
 				e.fail("the original writer changed while another writer was in place: status=%d size=%d written=%t, before %d %d %t", orig.Status(), orig.Size(), orig.Written(), st0, sz0, wr0)
 			}
 		}
+		// the handler takes the connection over at the end (underlying writer that supports it): whatever the writer
+		// remembers about that must not reach the next request served with the recycled context
+		if e.shape == "hijack" {
+			conn, _, err := c.Writer().Hijack()
+			if err != nil {
+				e.fail("Hijack on an underlying writer that supports it failed: %v", err)
+			} else {
+				_ = conn.Close()
+			}
+		}
 		// CloneWith inside the handler: same route/params, other request and writer
 		if e.shape == "clonewith" {
 			r2 := e.req.Clone(e.req.Context())
@@ -291,7 +301,7 @@ func newWorldWith(run *kit.Run, forward bool) *world {
 	return w
 }
 
-var shapes = []string{"ignored-tsr-static", "infix", "infix2-tsr", "direct", "two", "catchall", "host", "ignored-tsr", "redirect", "404", "405", "options", "options-star", "lookup", "lookup-nil", "clonewith", "static-then-param", "infix-then-params", "405-hostparam", "options-hostparam", "txn-lookup", "txn-lookup-nil", "writetxn-lookup", "setrequest", "escaped", "setwriter"}
+var shapes = []string{"ignored-tsr-static", "infix", "infix2-tsr", "direct", "two", "catchall", "host", "ignored-tsr", "redirect", "404", "405", "options", "options-star", "lookup", "lookup-nil", "clonewith", "static-then-param", "infix-then-params", "405-hostparam", "options-hostparam", "txn-lookup", "txn-lookup-nil", "writetxn-lookup", "setrequest", "escaped", "setwriter", "hijack"}
 
 type respW struct {
 	h      http.Header
@@ -311,6 +321,15 @@ func (r *respW) Write(b []byte) (int, error) {
 	}
 	r.body = append(r.body, b...)
 	return len(b), nil
+}
+
+// hijackW is an underlying writer whose connection can be taken over.
+type hijackW struct{ *respW }
+
+func (h *hijackW) Hijack() (net.Conn, *bufio.ReadWriter, error) {
+	a, b := net.Pipe()
+	_ = b.Close()
+	return a, bufio.NewReadWriter(bufio.NewReader(a), bufio.NewWriter(a)), nil
 }
 
 // ownW is an independent implementation of fox.ResponseWriter (a caller-supplied writer for Lookup).
@@ -350,7 +369,7 @@ func (w *world) issue(n int64, shape string) *expect {
 	method, host, path := "GET", "", ""
 	P := func(k, v string) fox.Param { return fox.Param{Key: k, Value: v} }
 	switch shape {
-	case "direct", "lookup", "lookup-nil", "clonewith", "setrequest", "setwriter", "txn-lookup", "txn-lookup-nil", "writetxn-lookup":
+	case "direct", "lookup", "lookup-nil", "clonewith", "setrequest", "setwriter", "hijack", "txn-lookup", "txn-lookup-nil", "writetxn-lookup":
 		path, e.pattern, e.params = "/d/"+tok, "/d/{tok}", []fox.Param{P("tok", tok)}
 	case "escaped":
 		// the wire form carries a needless escape: net/url keeps it in RawPath, the router routes on it and hands the raw
@@ -468,7 +487,11 @@ func (w *world) issue(n int64, shape string) *expect {
 		return e
 	}
 	rw := &respW{h: http.Header{}}
-	w.f.ServeHTTP(rw, req)
+	if shape == "hijack" {
+		w.f.ServeHTTP(&hijackW{rw}, req)
+	} else {
+		w.f.ServeHTTP(rw, req)
+	}
 	if e.seen.Load() != 1 {
 		e.fail("%d handler invocations saw this request (expected exactly 1)", e.seen.Load())
 	}
